@@ -23,7 +23,7 @@ RULE = ('generated specs (multi-namespace imports, cross-namespace parents and t
 ASSUMPTIONS = ['Identifiers follow the documented conventions and are not Python reserved words.']
 SCRIPT = os.path.join(VERIF_DIR, 'sv', 'py_introspect.py')
 
-C09_CFG = dict(omitted=True, doc_escapes=True, schema='generic', max_ns=4, max_types=6, max_routes=3, examples=True)
+C09_CFG = dict(alias_tag_defaults=True, omitted=True, doc_escapes=True, schema='generic', max_ns=4, max_types=6, max_routes=3, examples=True)
 
 
 def tb_text_sig(tb):
@@ -54,6 +54,9 @@ def attr_json(idx, f, v):
     lit = v[1]
     if b[0] == 'prim' and b[1] == 'Bytes':
         return {'__bytes__': base64.b64encode(lit.encode('utf-8')).decode()}
+    if b[0] == 'prim' and b[1] == 'Timestamp':
+        # the API description holds the parsed timestamp; the module shows the same value
+        return {'__timestamp__': [lit, M.pparams(b)['format']]}
     if b[0] == 'prim' and b[1] in M.FLOATS and v is f.get('default'):
         return float(lit)
     return lit
